@@ -442,7 +442,15 @@ func (r resolverQuery) parsePackageJSON(inputPath string) *packageJSON {
 
 				// Wildcard patterns require more expensive matching
 				if hadWildcard {
-					packageJSON.sideEffectsRegexps = append(packageJSON.sideEffectsRegexps, regexp.MustCompile(re))
+					// The pattern may not be valid UTF-8 (e.g. a "\uD800" escape in the JSON
+					// string or a directory name with invalid bytes), which "regexp" rejects.
+					// Don't use "regexp.MustCompile" here because that would panic.
+					if compiled, err := regexp.Compile(re); err == nil {
+						packageJSON.sideEffectsRegexps = append(packageJSON.sideEffectsRegexps, compiled)
+					} else {
+						r.log.AddID(logger.MsgID_PackageJSON_InvalidSideEffects, logger.Warning, &tracker, logger.Range{Loc: itemJSON.Loc},
+							"Ignoring invalid pattern in array for \"sideEffects\"")
+					}
 					continue
 				}
 
